@@ -108,13 +108,15 @@ Qed.
 
 Lemma suite_okb_spec : forall i s, suite_okb i s = true <-> suite_ok i s.
 Proof.
-  intros i s. unfold suite_okb, suite_ok. rewrite andb_true_iff, agreeb_agree, forallb_forall.
-  split; intros [H1 H2]; (split; [exact H1|]); intros n Hn; specialize (H2 n Hn).
-  - apply orb_true_iff in H2 as [H2|H2].
+  intros i s. unfold suite_okb, suite_ok. rewrite !andb_true_iff, agreeb_agree, forallb_forall, modes_okb_spec.
+  split.
+  - intros [[H1 H2] H3]. split; [exact H1|]. split; [|exact H3].
+    intros n Hn. specialize (H2 n Hn). apply orb_true_iff in H2 as [H2|H2].
     + left. apply has_successful_runb_spec. exact H2.
     + right. apply existsb_exists in H2 as [ph [Hph H2]]. exists ph. split; [exact Hph|].
       apply has_successful_runb_spec. exact H2.
-  - apply orb_true_iff. destruct H2 as [H2|[ph [Hph H2]]].
+  - intros [H1 [H2 H3]]. split; [split; [exact H1|] | exact H3].
+    intros n Hn. specialize (H2 n Hn). apply orb_true_iff. destruct H2 as [H2|[ph [Hph H2]]].
     + left. apply has_successful_runb_spec. exact H2.
     + right. apply existsb_exists. exists ph. split; [exact Hph|]. apply has_successful_runb_spec. exact H2.
 Qed.
